@@ -1646,6 +1646,36 @@ CLEANUP:
 	EG_RETURN (rval);
 }
 
+/* The working basis kept for a warm start has to stay consistent with changed
+ * bounds: a nonbasic column sits on a finite bound when it has one and is
+ * "free at zero" only when it has none (compare ILLbasis_load) */
+static void reconcile_nonbasic_status (
+	EGLPNUM_TYPENAME_QSdata * p,
+	int indx)
+{
+	EGLPNUM_TYPENAME_lpinfo *lp = p->lp;
+	int col;
+
+	if (!p->factorok || !lp->vstat || indx < 0 || indx >= p->qslp->nstruct)
+		return;
+	col = p->qslp->structmap[indx];
+	if (lp->vstat[col] == STAT_BASIC)
+		return;
+	if (lp->vstat[col] == STAT_LOWER &&
+			EGLPNUM_TYPENAME_EGlpNumIsEqqual (p->qslp->lower[col], EGLPNUM_TYPENAME_NINFTY))
+		lp->vstat[col] = STAT_ZERO;
+	if (lp->vstat[col] == STAT_UPPER &&
+			EGLPNUM_TYPENAME_EGlpNumIsEqqual (p->qslp->upper[col], EGLPNUM_TYPENAME_INFTY))
+		lp->vstat[col] = STAT_ZERO;
+	if (lp->vstat[col] == STAT_ZERO)
+	{
+		if (EGLPNUM_TYPENAME_EGlpNumIsNeqq (p->qslp->lower[col], EGLPNUM_TYPENAME_NINFTY))
+			lp->vstat[col] = STAT_LOWER;
+		else if (EGLPNUM_TYPENAME_EGlpNumIsNeqq (p->qslp->upper[col], EGLPNUM_TYPENAME_INFTY))
+			lp->vstat[col] = STAT_UPPER;
+	}
+}
+
 EGLPNUM_TYPENAME_QSLIB_INTERFACE int EGLPNUM_TYPENAME_QSchange_bounds (
 	EGLPNUM_TYPENAME_QSdata * p,
 	int num,
@@ -1654,12 +1684,16 @@ EGLPNUM_TYPENAME_QSLIB_INTERFACE int EGLPNUM_TYPENAME_QSchange_bounds (
 	const EGLPNUM_TYPE * bounds)
 {
 	int rval = 0;
+	int i;
 
 	rval = check_qsdata_pointer (p);
 	CHECKRVALG (rval, CLEANUP);
 
 	rval = EGLPNUM_TYPENAME_ILLlib_chgbnds (p->lp, num, collist, lu, bounds);
 	CHECKRVALG (rval, CLEANUP);
+
+	for (i = 0; i < num; i++)
+		reconcile_nonbasic_status (p, collist[i]);
 
 	free_cache (p);
 
@@ -1681,6 +1715,8 @@ EGLPNUM_TYPENAME_QSLIB_INTERFACE int EGLPNUM_TYPENAME_QSchange_bound (
 
 	rval = EGLPNUM_TYPENAME_ILLlib_chgbnd (p->lp, indx, lu, bound);
 	CHECKRVALG (rval, CLEANUP);
+
+	reconcile_nonbasic_status (p, indx);
 
 	free_cache (p);
 
